@@ -221,6 +221,42 @@ def run(ctx):
                     except Exception:
                         pass
             corr(a, b)
+    # declared values that are equal under Python's == but of different kinds (1 / True / 1.0, 0 / False / 0.0, "" / b""):
+    # whatever == answers for such a pair, equal schemas must agree on every value
+    twin_makers = [(lambda: schema.int(1), lambda: schema.int(True)), (lambda: schema.int(0), lambda: schema.int(False)),
+                   (lambda: schema.int(1).min(1), lambda: schema.int(True).min(True)),
+                   (lambda: schema.int.min(0), lambda: schema.int.min(False)), (lambda: schema.int.max(1), lambda: schema.int.max(True)),
+                   (lambda: schema.list.len(1), lambda: schema.list.len(True)), (lambda: schema.str.len(0), lambda: schema.str.len(False)),
+                   (lambda: schema.float.precision(1), lambda: schema.float.precision(True))]
+    twins = []
+    for ma, mb in twin_makers:
+        try:
+            twins.append((ma(), mb()))
+        except Exception:  # noqa: BLE001  (a declaration the tree under test refuses is not part of the family)
+            ctx.count("twin_pairs_not_declarable")
+    wraps = [lambda t: t, lambda t: schema.list([t, ...]), lambda t: schema.dict({optional("k"): t, ...: ...}),
+             lambda t: schema.any(t, schema.str), lambda t: schema.dict({"a": schema.list(schema.any(t, schema.none))})]
+    inner_probes = [1, True, 0, False, 1.0, 0.0, 2, "1", None, [], [1], [True], ""]
+    for a0, b0 in twins:
+        for wi, wr in enumerate(wraps):
+            try:
+                a, b = wr(a0), wr(b0)
+            except Exception:  # noqa: BLE001
+                continue
+            ctx.count("twin_pairs")
+            r1, r2 = eq(a, b), eq(b, a)
+            if r1 is not r2:
+                ctx.violation("== is not symmetric", a=repr(a), b=repr(b), results=[repr(r1), repr(r2)], py_a=a, py_b=b)
+            if r1 is True:
+                for x0 in inner_probes:
+                    x = [x0, [x0], {"k": x0}, x0, {"a": [x0]}][wi]
+                    try:
+                        if validate(a, x).has_errors() != validate(b, x).has_errors():
+                            ctx.violation("schemas compare equal but give different verdicts on a value", a=repr(a), b=repr(b),
+                                          value=repr(x), py_a=a, py_b=b)
+                            break
+                    except Exception:  # noqa: BLE001
+                        pass
     # cross-class pairs, with universal schemas on either side
     universal = [schema.any, schema.int | schema.any, schema.alias("U", schema.any), schema.any(schema.any, schema.none)]
     others = [schema.int, schema.str, schema.none, schema.list, schema.dict, schema.bool, schema.float, schema.bytes,
